@@ -78,6 +78,8 @@ def gen_channel(rng, bnodes):
     ch["rotate_labels"] = rng.random() < 0.5
     ch["use_base"] = rng.random() < 0.3
     ch["full_nonhttp"] = rng.random() < 0.5      # urn:/mailto: IRIs written as <...> instead of prefixed names
+    ch["rebind"] = rng.random() < 0.3            # prefix labels re-bound in the middle of a document
+    ch["comments"] = rng.choice([0, 0, 1, 3])    # comment and blank lines between statements
     if tr in ("gz", "xz") and rng.random() < 0.35:
         ch["members"] = rng.randint(2, 3)
     if tr == "zip" and rng.random() < 0.5:
@@ -110,15 +112,17 @@ def generate(rng, tier, index):
             "channels": channels}
 
 
-def _doc(triples, fmt, grouped=True, salt=0, base=None, full_nonhttp=False):
+def _doc(triples, fmt, grouped=True, salt=0, base=None, full_nonhttp=False, rebind=False, comments=0):
     if fmt == "nt":
-        return gen.to_nt(triples)
+        return gen.to_nt(triples, comments=comments)
     if fmt == "tsv_spo":
         return gen.to_tsv(triples)
     if fmt in ("turtle", "n3"):
-        return gen.to_turtle(triples, group=grouped, label_salt=salt, base=base, full_nonhttp=full_nonhttp)
+        return gen.to_turtle(triples, group=grouped, label_salt=salt, base=base, full_nonhttp=full_nonhttp,
+                             rebind=rebind, comments=bool(comments))
     if fmt == "turtle_iter":
-        return gen.to_turtle(triples, group=grouped, dialect="iter", label_salt=salt, base=base, full_nonhttp=full_nonhttp)
+        return gen.to_turtle(triples, group=grouped, dialect="iter", label_salt=salt, base=base, full_nonhttp=full_nonhttp,
+                             rebind=rebind, comments=bool(comments))
     if fmt == "xml":
         return gen.to_rdfxml(triples)
     if fmt == "json-ld":
@@ -158,7 +162,8 @@ def build_channel(sim, triples, ch, tag):
         parts = [b for b in parts if not dirty(b)] + [b for b in parts if dirty(b)]
         based = [not dirty(b) for b in parts]
     docs = [_doc(b, fmt, ch.get("turtle_grouped", True), salt=(i if ch.get("rotate_labels") else 0),
-                 base=(gen.EX if based[i] else None), full_nonhttp=ch.get("full_nonhttp", False))
+                 base=(gen.EX if based[i] else None), full_nonhttp=ch.get("full_nonhttp", False),
+                 rebind=ch.get("rebind", False), comments=ch.get("comments", 0))
             for i, b in enumerate(parts)]
     ext = EXT[fmt]
     kw = {"input_format": fmt}
@@ -302,6 +307,13 @@ def extra_scenarios(tier, base):
             triples = gen.gen_aligned_graph(rng, fmt=fmt, boundaries=bounds, n_classes=rng.randint(2, 6))
             channels = [{"transport": tr, "format": fmt, "parts": 1, "split_seed": 0, "turtle_grouped": False}
                         for tr in ("file", "gz", "xz", "zip", "zips", "raw")]
+            if fmt == "nt":
+                # thousands of comment and blank lines (valid N-Triples) between the statements
+                ch2 = [dict(c, comments=1) for c in channels]
+                small = triples[:1500]
+                out.append(("comments-nt-%d" % k, {
+                    "graph": gen.L(small), "ordered": True, "bnodes": False, "target": {"all_classes_mode": True},
+                    "options": {"instances_report_mode": "mixed"}, "ns": dict(gen.BASE_NS), "channels": ch2}))
             out.append(("layout-%s-%d" % (fmt, k), {
                 "graph": gen.L(triples), "ordered": True, "bnodes": False, "target": {"all_classes_mode": True},
                 "options": {"instances_report_mode": "mixed"}, "ns": dict(gen.BASE_NS), "channels": channels}))
